@@ -139,7 +139,7 @@ def main():
           for pid in ids if pid not in CHECKS]
     man = dict(
         version=1,
-        setup_cmd="cd lean && lake build LapyVerif lapydrv",
+        setup_cmd="/venv/bin/python tools/regen.py && cd lean && lake build LapyVerif lapydrv",
         hooks=dict(guard="LAPY_VERIF", enable="no source hooks are needed: external kernels are wrapped from the harness process",
                    baseline_off_cmd="cd /repo && /venv/bin/python -m pytest -ra -q -p no:cacheprovider --timeout=900 --continue-on-collection-errors",
                    source_commits=[], add_only=True),
